@@ -119,6 +119,67 @@ Definition decode_ok (normd : Z) (dtol bperr : Q) (so sd : list Q) (sids : list 
         | None, _ => false end) got out &&
   Qle_bool (spread (map2 (fun g m => match g with Some (go, _, _) => go - fst (fst m) | None => 0 end) got out)) dtol.
 
+(* ---------- decode_performance's glue around decode_time ----------
+   snote_info = snotes[np.isin(snotes["id"], snote_ids)]; sort_idx = np.lexsort((pitch, onset_div)) (stable);
+   score columns AND the parameter rows are taken through sort_idx; the k-th output row is labelled snote_ids[k] *)
+Definition isin (sids : list Z) (r : srow) : bool := existsb (Z.eqb (s_id r)) sids.
+Definition dp_info (sna : list srow) (sids : list Z) : list srow := filter (isin sids) sna.
+Definition row_key (r : srow) : Z * Z := (s_div r, s_pitch r).
+Definition row_leb (a b : srow) : bool := lex2_leb (row_key a) (row_key b).
+Definition dp_sort_idx (info : list srow) : list nat :=
+  isort (fun a b => row_leb (nth a info sdefault) (nth b info sdefault)) (seq 0 (List.length info)).
+Definition dp_take {A} (d : A) (l : list A) (idx : list nat) : list A := map (fun i => nth i l d) idx.
+Definition dp_decode (normd : Z) (sna : list srow) (sids : list Z) (prm : list irow) (ncols : list (list Q))
+  : list (Z * (Q * Q * Z)) :=
+  let info := dp_info sna sids in
+  let idx := dp_sort_idx info in
+  let rows := dp_take sdefault info idx in
+  let so := map s_on rows in
+  let sd := map s_dur rows in
+  let P := dp_take lp_default (mkparams normd prm ncols) idx in
+  combine sids (l_decode normd so sd (dec_groups so) P).
+(* what the PROPERTY comparison decode_ok evaluates: the decoder on the rows in the order of the pairs M' *)
+Definition direct_decode (normd : Z) (sna : list srow) (M' : list (nat * nat)) (sids : list Z)
+           (prm : list irow) (ncols : list (list Q)) : list (Z * (Q * Q * Z)) :=
+  let so := r_so sna M' in
+  combine sids (l_decode normd so (r_sd sna M') (dec_groups so) (mkparams normd prm ncols)).
+(* hypotheses of the glue theorem, decidable: the score note array is sorted by (onset_div, pitch), ids unique *)
+Fixpoint nodupb (l : list Z) : bool :=
+  match l with [] => true | x :: r => negb (existsb (Z.eqb x) r) && nodupb r end.
+Definition sna_sorted (sna : list srow) : bool := sorted_by row_leb sna.
+Definition glue_ok (normd : Z) (dtol bperr : Q) (sna : list srow) (sids : list Z)
+           (prm : list irow) (ncols : list (list Q)) (dec : list (Z * Q * Q * Z)) : bool :=
+  let out := dp_decode normd sna sids prm ncols in
+  all2 (fun g m => match g, m with
+        | (gi, _, gd, gv), (mi, (_, md, mv)) =>
+            Z.eqb gi mi && close rel_log (abs_small + Qabs md * bperr) gd md && Z.eqb gv mv end) dec out &&
+  Qle_bool (spread (map2 (fun g m => match g, m with (_, go, _, _), (_, (mo, _, _)) => go - mo end) dec out)) dtol.
+
+(* ---------- matched score rows of to_matched_score: onset, duration, pitch, p_onset, p_duration, velocity ---------- *)
+Definition mrow := (Q * Q * Z * Q * Q * Z)%type.
+Definition mscore_row (sna : list srow) (pna : list prow) (m : nat * nat) : mrow :=
+  let s := r_srow sna m in let p := r_prow pna m in
+  (s_on s, s_dur s, s_pitch s, p_on p, Qmaxb (p_dur p) floor_pdur, p_velo p).
+Definition mscore_rows (sna : list srow) (pna : list prow) (M : list (nat * nat)) : list mrow := map (mscore_row sna pna) M.
+(* observed row against the model row; the performed duration floored (known finding C18-K2) or as performed *)
+Definition mrow_ok (pna : list prow) (m : nat * nat) (g w : mrow) : bool :=
+  match g, w with
+  | (go, gd, gp, gpo, gpd, gv), (wo, wd, wp, wpo, wpd, wv) =>
+      close rel_f32 abs_f32 go wo && close rel_f32 abs_f32 gd wd && Z.eqb gp wp && close rel_f32 abs_f32 gpo wpo &&
+      (close rel_f32 abs_f32 gpd wpd || close rel_f32 abs_f32 gpd (p_dur (r_prow pna m))) && Z.eqb gv wv
+  end.
+Fixpoint all3 {A B C} (f : A -> B -> C -> bool) (a : list A) (b : list B) (c : list C) : bool :=
+  match a, b, c with
+  | [], [], [] => true
+  | x :: a', y :: b', z :: c' => f x y z && all3 f a' b' c'
+  | _, _, _ => false
+  end.
+
+(* ---------- distinct score onsets far enough apart for the two groupings to coincide ---------- *)
+Definition sep_min : Q := 2 # 10000.
+Definition sep_b (so : list Q) : bool :=
+  forallb (fun a => forallb (fun b => Qeq_bool a b || Qle_bool sep_min (Qabs (a - b))) so) so.
+
 (* ---------- time maps ---------- *)
 (* test: (kind, x, observed y); kind 0: stime_to_ptime at a knot, 1: ptime_to_stime at a knot (property);
    2: stime_to_ptime elsewhere, 3: ptime_to_stime elsewhere (tie: linear interpolation / extrapolation) *)
@@ -132,14 +193,14 @@ Definition check_tmaps (prop : bool) (K : list (Q * Q)) (tol : Q) (tests : list 
 
 Definition c18_case :=
   ((Z * Z) * list srow * list prow * list al_entry *
-   (list (Z * Z) * list Z * list (list Z) * list irow * list (list Q)) *
+   (list (Z * Z) * list Z * list (list Z) * list irow * list (list Q) * list mrow) *
    (Q * Q * list (Z * list (Z * Q * Q * Z))) *
    (bool * Q * list tm_test))%type.
 
 (* PROPERTY bits *)
 Definition c18_prop_bits (c : c18_case) : list bool :=
   match c with
-  | ((method, norm), sna, pna, al, (midx, sids, uidx, prm, ncols), (dtol, bperr, decs), (rmo, ttol, tests)) =>
+  | ((method, norm), sna, pna, al, (midx, sids, uidx, prm, ncols, mrows), (dtol, bperr, decs), (rmo, ttol, tests)) =>
     let M := matched_idx (map s_id sna) (map C18.p_id pna) al in
     let M' := pairs_by_ids sna M sids in
     let so := r_so sna M' in let sd := r_sd sna M' in
@@ -150,7 +211,9 @@ Definition c18_prop_bits (c : c18_case) : list bool :=
       sids_ok sna pna al sids ]
     ++ enc_consistent_bits norm dtol bperr so sd po pdraw vel prm ncols
     ++ [ forallb (fun d => decode_ok (fst d) dtol bperr so sd sids prm ncols (snd d)) decs;
-         check_tmaps true (tm_knots sna pna al rmo) ttol tests ]
+         check_tmaps true (tm_knots sna pna al rmo) ttol tests;
+         (* the rows of the matched score hold the columns of the paired notes *)
+         all3 (mrow_ok pna) M' mrows (mscore_rows sna pna M') ]
   end.
 Definition c18_check (c : c18_case) : bool := forallb (fun b => b) (c18_prop_bits c).
 
@@ -170,7 +233,7 @@ Definition norm_ok (norm : Z) (mu var : Q) (b : Q) (cols : list Q) : bool :=
 (* TIE bits: the formulas of Model/C18.v, in the implementation's row order *)
 Definition c18_tie_bits (c : c18_case) : list bool :=
   match c with
-  | ((method, norm), sna, pna, al, (midx, sids, uidx, prm, ncols), (dtol, bperr, decs), (rmo, ttol, tests)) =>
+  | ((method, norm), sna, pna, al, (midx, sids, uidx, prm, ncols, mrows), (dtol, bperr, decs), (rmo, ttol, tests)) =>
     let M := matched_idx (map s_id sna) (map C18.p_id pna) al in
     let M' := pairs_by_ids sna M sids in
     let so := r_so sna M' in let sd := r_sd sna M' in
@@ -203,7 +266,13 @@ Definition c18_tie_bits (c : c18_case) : list bool :=
       forallb (fun d => match snd d with [] => true | _ =>
                  close 0 abs_small (minl (map (fun r => match r with (_, o, _, _) => o end) (snd d))) 0 end) decs;
       (* time maps linear between the knots, extrapolating with the end segments *)
-      check_tmaps false (tm_knots sna pna al rmo) ttol tests ]
+      check_tmaps false (tm_knots sna pna al rmo) ttol tests;
+      (* hypotheses of the glue theorem (Part.note_array: sorted by onset_div then pitch, unique ids, every score
+         note matched at most once) and of groups_agree (distinct score onsets >= 2e-4 beat apart) *)
+      sna_sorted sna && nodupb (map s_id sna) && nodupb (map (fun m => Z.of_nat (fst m)) M) && sep_b so;
+      (* decode_performance's glue (isin filter, stable lexsort applied to score columns and parameters,
+         positional labelling by snote_ids) = dp_decode, row by row in the order of the returned notes *)
+      forallb (fun d => glue_ok (fst d) dtol bperr sna sids prm ncols (snd d)) decs ]
   end.
 Definition c18_tie (c : c18_case) : bool := forallb (fun b => b) (c18_tie_bits c).
 Definition c18_all (c : c18_case) : bool := c18_check c && c18_tie c.
